@@ -244,7 +244,7 @@ pub fn run_c16(ctx: &Ctx) {
     }
     ctx.run_group("exhaustive_value_lane", 256, true, |c| c16_exhaustive(c));
     ctx.run_group("all_lengths", 201, true, |c| c16_lengths(c));
-    let n = ctx.n(200_000, 30_000_000);
+    let n = ctx.n(1_000_000, 50_000_000);
     ctx.run_group("random", n, false, |c| c16_random(c));
     ctx.add_count("avx2_detected", std::is_x86_feature_detected!("avx2") as u64);
     if !ctx.is_miri() {
